@@ -90,6 +90,68 @@ theorem c04_panic_detaches (c : Cons) (p : Pkt) (hex : c.exited = false) (hin : 
   have : c.step = c.apply .panic := by show c.apply c.stepKind = _; rw [k1]
   rw [this]; simp [Cons.apply]
 
+/-- A healthy consumer loses nothing.  One publish step of the stream, any packet, any verdict of
+    the classifier: a registered consumer that is not discarding and whose backlog is within the
+    limit is given the packet (appended to its queue, still not discarding), whatever the other
+    consumers of the stream are doing (stalled, discarding, panicking). -/
+theorem c04_healthy_keeps (s : St) (p : Pkt) (cache' : Cache) (key : Bool)
+    (hst : s.status = 0) (hp : s.cache.pack s.consts p = some (cache', key)) :
+    (s.step (.pub p)).cons = s.cons.map (Cons.send s.maxQLen p key) ∧
+    ∀ c ∈ s.cons, c.registered = true → c.discarding = false → c.queue.length ≤ s.maxQLen →
+      (Cons.send s.maxQLen p key c).queue = c.queue ++ [some p] ∧
+      (Cons.send s.maxQLen p key c).discarding = false := by
+  refine ⟨by simp [St.step, hst, hp], ?_⟩
+  intro c _ hr hd hl
+  have hn : nextDiscarding s.maxQLen key false c.queue.length = false := by
+    unfold nextDiscarding
+    cases key
+    · simp
+    · have : ¬ (c.queue.length > s.maxQLen) := by omega
+      simp [this]
+  simp [Cons.send, hr, hd, hn, Cons.keep]
+
+/-- Dropping starts only above the limit and only at a key-frame start: if a publish step turns a
+    consumer that was not discarding into a discarding one, the packet had a key-frame verdict and
+    the backlog was already above the limit. -/
+theorem c04_drop_starts_only_over_limit (M : Nat) (p : Pkt) (key : Bool) (c : Cons)
+    (hd : c.discarding = false) (h : (Cons.send M p key c).discarding = true) :
+    key = true ∧ c.queue.length > M ∧ c.registered = true := by
+  unfold Cons.send at h
+  by_cases hr : c.registered = true
+  · simp only [hr, Bool.not_true, Bool.false_eq_true, if_false] at h
+    by_cases hn : nextDiscarding M key c.discarding c.queue.length = true
+    · unfold nextDiscarding at hn
+      cases key
+      · simp [hd] at hn
+      · by_cases hq : c.queue.length > M
+        · exact ⟨rfl, hq, hr⟩
+        · simp [hd, hq] at hn
+    · simp only [hn, Bool.false_eq_true, if_false] at h
+      simp [Cons.keep] at h
+  · simp only [Bool.not_eq_true] at hr
+    simp [hr, hd] at h
+
+/-- Recovery.  A discarding consumer whose backlog has drained below the limit is given the next
+    key-frame start and everything after it: at the first packet with a key-frame verdict the
+    packet is queued and discarding ends; until then (no key-frame verdict) nothing is queued, so
+    delivery resumes exactly at the start of a key frame. -/
+theorem c04_recovery_at_key (M : Nat) (p : Pkt) (c : Cons)
+    (hr : c.registered = true) (hd : c.discarding = true) (hl : c.queue.length < M) :
+    (Cons.send M p true c).queue = c.queue ++ [some p] ∧ (Cons.send M p true c).discarding = false ∧
+    (Cons.send M p false c).queue = c.queue ∧ (Cons.send M p false c).discarding = true := by
+  have h1 : nextDiscarding M true true c.queue.length = false := by simp [nextDiscarding, hl]
+  have h2 : nextDiscarding M false true c.queue.length = true := by simp [nextDiscarding]
+  simp [Cons.send, hr, hd, h1, h2, Cons.keep, Cons.drop]
+
+/-- non-vacuity of the three one-step theorems: a registered consumer over the limit that is not
+    yet discarding starts dropping at a key packet; drained below the limit it resumes at the next one -/
+example :
+    let key : Pkt := { uid := 0, ch := 0, payload := [0x65, 1] }
+    let c : Cons := { name := 0, queue := [some key, some key, some key] }
+    (Cons.send 2 key true c).discarding = true ∧
+    (Cons.send 2 key true { c with discarding := true, queue := [some key] }).discarding = false := by
+  decide
+
 /-- non-vacuity: a stalled consumer of a stream with a key frame every 3 packets, limit 2:
     the queue stays within limit + G + replay while 30 packets are published
     (a test of the statement on a small instance, with a small limit) -/
